@@ -71,9 +71,20 @@ def charset_cond(c, charset):
     return z3.Or(*[(c == lo) if lo == hi else z3.And(c >= lo, c <= hi) for lo, hi in charset])
 
 
+# code points that str methods / int() / float() treat specially although they are not ASCII digits or letters:
+# decimal digits of other scripts (str.isdigit and int() take them), superscripts and fractions (isdigit / isnumeric only),
+# separators and white space
+AWKWARD_CODEPOINTS = [0x0660 + d for d in range(10)] + [0x06F0 + d for d in range(10)] + [0x0966 + d for d in range(10)] + [0xFF10 + d for d in range(10)] + \
+                     [0xB2, 0xB3, 0xB9, 0xBD, 0x2070, 0x2460, 0x0A, 0x0D, 0x09, 0x20, 0xA0, 0x2028, 0x3000, 0x5F, 0x2D, 0x2B, 0x2E, 0x2C, 0x3A, 0x5B, 0x5D, 0x41, 0x7A, 0x30, 0x39]
+
+
 def charset_sample(rng, charset):
     if isinstance(charset, str):
         return rng.choice(charset)
+    if rng.random() < 0.3:
+        inside = [c for c in AWKWARD_CODEPOINTS if any(lo <= c <= hi for lo, hi in charset)]
+        if inside:
+            return chr(rng.choice(inside))
     lo, hi = rng.choice(charset)
     edge = rng.random() < 0.4
     return chr(rng.choice([lo, hi]) if edge else rng.randint(lo, hi))
@@ -436,9 +447,25 @@ def _snap_leaf(x, depth, seen):
     return s
 
 
-def native_check(contract, fn, concrete_args, frames_only=False):
+def native_check(contract, fn, concrete_args, frames_only=False, again=None):
     """run the real function natively on concrete args and evaluate the contract.
-    -> (verdict, detail) verdict in ok | violated | pre-false | kf"""
+    -> (verdict, detail) verdict in ok | violated | pre-false | kf
+    A contract holds for EVERY call: unless the contract is a scenario harness of its own (native_only), the very same
+    call is made a second time on the same (unmodified: frames are checked) arguments and must satisfy the contract again
+    - a result, an exception or a warning that depends on what was computed before shows here."""
+    v, d = _native_check_once(contract, fn, concrete_args, frames_only)
+    if again is None:
+        again = not getattr(contract, "native_only", False) and getattr(contract, "repeat", True)
+    if again and v == "ok":
+        lit = getattr(native_check, "last_literal", None)
+        v2, d2 = _native_check_once(contract, fn, concrete_args, frames_only)
+        native_check.last_literal = lit
+        if v2 == "violated":
+            return "violated", f"the same call made a second time: {d2} (the first call: {d})"
+    return v, d
+
+
+def _native_check_once(contract, fn, concrete_args, frames_only=False):
     env = clause_env(contract, concrete_args)
     frames_only = frames_only or getattr(contract, "frames_only", False)
     try:
